@@ -272,7 +272,7 @@ func c08pollFinal(c *Ctx, a *alphAnchors) {
 				return
 			}
 			nTrue++
-			fs := facts.At(r, nil)
+			fs := acceptFacts(r)
 			h := "(eventBlockHeader.Height + event.msg.consistencyLevel) <= currentHeight"
 			t := "(eventBlockHeader.Timestamp + " + fname(a.getConfDur) + "(isMainnet,(*N/alephium.WormholeMessage).IsTransferTokenVAA(event.msg),event.msg.consistencyLevel)) <= currentTs"
 			c.checkFacts(p, "C08.poll-final", fn, "return:true", r, fs, []req{
@@ -295,7 +295,7 @@ func c08pollFinal(c *Ctx, a *alphAnchors) {
 			return
 		}
 		nret++
-		fs := facts.Atoms(facts.At(r, nil))
+		fs := facts.Atoms(acceptFacts(r))
 		t := facts.Term(r.Results[0])
 		mainnetTransfer := len(fs) == 2 && fs[0] == "isMainnet" && fs[1] == "isTransferTokenVAA"
 		want := fmt.Sprintf("(eventConsistencyLevel * %d)", btV)
@@ -314,7 +314,7 @@ func c08pollFinal(c *Ctx, a *alphAnchors) {
 	okmx := true
 	eachInstr(mx, func(i ssa.Instruction) {
 		if r, ok := i.(*ssa.Return); ok {
-			fs := facts.Atoms(facts.At(r, nil))
+			fs := facts.Atoms(acceptFacts(r))
 			t := facts.Term(r.Results[0])
 			if !(t == "a" && len(fs) == 1 && fs[0] == "b < a" || t == "b" && len(fs) == 1 && fs[0] == "a <= b") {
 				okmx = false
@@ -426,7 +426,7 @@ func c08attest(c *Ctx, a *alphAnchors) {
 			return
 		}
 		nacc++
-		fs := facts.At(r, nil)
+		fs := acceptFacts(r)
 		parsed := "N/alephium.parseAttestToken(msg.payload)#0"
 		chain := "(*N/alephium.Client).GetTokenInfo(w.client,ctx," + parsed + ".TokenId)#0"
 		c.checkFacts(p, "C08.attest", a.validateAttest, "return:nil", r, fs, []req{
@@ -563,7 +563,37 @@ func c08once(c *Ctx, a *alphAnchors) {
 				continue
 			}
 			if strings.HasPrefix(t, "*(*N/alephium.Client).GetContractEventsCount(") {
-				continue // initial value: the count at start-up
+				// initial value: the count read once at start-up — not the count polled on every
+				// tick (a page may reach beyond the polled count; restarting from that count
+				// fetches, and forwards, the surplus events a second time)
+				inLoop := false
+				var cnt *ssa.Call
+				var find func(v ssa.Value, d int)
+				find = func(v ssa.Value, d int) {
+					if d > 4 || cnt != nil {
+						return
+					}
+					switch x := v.(type) {
+					case *ssa.UnOp:
+						find(x.X, d+1)
+					case *ssa.Extract:
+						find(x.Tuple, d+1)
+					case *ssa.Call:
+						cnt = x
+					}
+				}
+				find(leaf, 0)
+				if cnt != nil {
+					for _, l := range facts.LoopsOf(cnt.Parent()) {
+						if l.Body()[cnt.Block()] {
+							inLoop = true
+						}
+					}
+				}
+				if !inLoop {
+					continue
+				}
+				t += " (the count polled inside the fetch loop, not the start-up count)"
 			}
 			bad = append(bad, t)
 		}
